@@ -968,6 +968,18 @@ def c16(w):
         ghost = listed - existing
         if ghost:
             f.append(("c16:ghost-attachment", "topic lists subscription(s) %r that do not exist" % sorted(ghost)))
+    # whatever was abandoned, every subscription that exists can still be deleted, and is then gone
+    if existing is not None and go:
+        ep = [x for x in w.evs if x.i > go[-1]]
+        for k, x in enumerate(ep):
+            if x.op == "dsub" and not getattr(x, "dropped", False):
+                n = split_name(unhx(x.args[0]), b"subscriptions")
+                if n in existing and not x.ans.startswith("ok") and not x.ans.startswith(("HANG", "PANIC")):
+                    f.append(("c16:undeletable-after-abandon", "subscription %r exists but DeleteSubscription answers %s after an abandoned request (op #%d)" % (n, x.ans[:40], x.i)))
+                if x.ans.startswith("ok"):
+                    later = [y for y in ep[k + 1:] if y.op == "gsub" and split_name(unhx(y.args[0]), b"subscriptions") == n]
+                    if later and later[0].ans.startswith("ok"):
+                        f.append(("c16:deleted-but-still-there", "subscription %r was deleted (op #%d) and GetSubscription still finds it (op #%d)" % (n, x.i, later[0].i)))
     # an abandoned Publish is all-or-nothing across the subscriptions that were attached all along:
     # its message reaches every one of them or none
     dropped_pubs = [x for x in w.evs if x.op == "pub" and getattr(x, "dropped", False) and x.i < go[-1]]
